@@ -256,3 +256,25 @@ Theorem C04_build_optimal_with_dictionary : forall conn lexs params bow t oov fa
              BinInt.Z.le c (Lattice.path_cost conn p)).
 Proof. exact (LookupLattice.build_optimal_with_dictionary Buffer.the_cfg C04_fact_buffer_cfg). Qed.
 Print Assumptions C04_build_optimal_with_dictionary.
+
+(* ---- a lexicon read from several files ---- *)
+(* DictBuilder::read_lexicon appends: every file goes to the same reader, which only pushes records (no clear / sort / dedup) *)
+Fact C04_fact_read_lexicon_appends : Generated.IndexFacts.read_lexicon_appends = true.
+Proof. vm_compute. reflexivity. Qed.
+
+(* reading files f1 .. fn one after the other with a running word number gives the index of their CONCATENATION in the order
+   given: by C04_index_groups_spec the ids of a surface are then the positions of its indexed rows in that concatenation
+   (a file given twice contributes its rows twice).  The order in which a front end hands the files over is its own matter:
+   sudachi-cli's is pinned by builder G's fact and run by the CLI stages of C04 / C05 / C12. *)
+Theorem C04_read_files_concat : forall fs : list (list row),
+  fst (fst (read_files fs)) = index_groups (concat fs).
+Proof. exact read_files_concat. Qed.
+Print Assumptions C04_read_files_concat.
+
+(* ---- no maximum key length ---- *)
+(* C04_traverse_exact is unbounded in the length of the key and of the text.  What ties that to the code: nobody between the
+   tokenizer and the double array shortens the text handed to lookup -- build_lattice passes the whole current text and the byte
+   offset, LexiconSet::lookup and Lexicon::lookup pass both on unchanged, common_prefix_iterator keeps the whole slice and
+   TrieEntryIter::next runs `for i in self.offset..self.data.len()` (no `.min(..)`, no sub-slice, no fixed window) *)
+Fact C04_fact_lookup_input_untruncated : Generated.TrieBits.lookup_input_untruncated = true.
+Proof. vm_compute. reflexivity. Qed.
